@@ -1,6 +1,6 @@
 """C18 -- add_schema adds re-rooted rules and leaves the added schema intact.
 
-H-space: world = two target schemas S1, S2 and two source schemas T1, T2 (shared live objects);
+H-space: world = three target schemas S1, S2, S3 (S3 empty) and two source schemas T1, T2 (shared live objects);
 transitions = Si.add_schema(Tj, R) over 6 roots; every history up to the depth bound, replayed
 from scratch on fresh objects.  After every transition: sources keep their snapshot and
 behaviour; the target's rule list is the reference list (previous rules + re-rooted rules of
@@ -19,7 +19,7 @@ from valida.datapath import DataPath
 from valida.schema import Schema
 
 META = {
-    "rule": "every history of <= depth transitions Si.add_schema(Tj, R) (2 targets x 2 sources x 6 roots = 24 per state) "
+    "rule": "every history of <= depth transitions Si.add_schema(Tj, R) (3 targets, one of them empty, x 2 sources x 6 roots = 36 per state) "
             "on shared live schema objects built from a 6-rule pool; state = the reference rule lists of the two targets; "
             "executions are histories (each replayed from scratch), none merged; non-trivial = history of >= 2 additions "
             "(same source twice, two targets, or two roots)",
@@ -39,9 +39,10 @@ R2 = T.rule(P((("prim", "b"), Ls)), L("Value", "greater_than", 0))
 R3 = T.rule(P((M,)), L("ValueDataType", "in_", [int, dict, list]))
 R4 = T.rule(P((("prim", "a"), ("prim", "b"))), L("Value", "less_than", 3))
 R5 = T.rule(P((("prim", "x"),)), L("ValueDataType", "equal_to", int), (("str", "int"),))
-INIT = {"S1": (R0, R1), "S2": (R4,), "T1": (R1, R2), "T2": (R3, R5, R0)}
+INIT = {"S1": (R0, R1), "S2": (R4,), "S3": (), "T1": (R1, R2), "T2": (R3, R5, R0)}
+TARGETS = ("S1", "S2", "S3")
 ROOTS = [(), (("prim", "a"),), (("prim", "a"), ("prim", "b")), (("prim", 0),), (Ls,), (M,)]
-MENU = [(s, t, r) for s in ("S1", "S2") for t in ("T1", "T2") for r in range(len(ROOTS))]
+MENU = [(s, t, r) for s in TARGETS for t in ("T1", "T2") for r in range(len(ROOTS))]
 
 DOCS = [
     {"a": 1, "b": [1, 0]}, {"a": {"a": 1, "b": [1, -1], "x": "3"}, "b": [2]}, {"a": {"b": {"a": 2, "b": [0]}}},
@@ -129,7 +130,7 @@ def run_history(res, hist):
         w.model[s] = ref_add(w.model[s], w.model[t], root_parts)
         if not last:
             continue   # (the prefix was checked when it was itself the history)
-        res.states.add(hash(repr((w.model["S1"], w.model["S2"]))))
+        res.states.add(hash(repr(tuple(w.model[k] for k in TARGETS))))
         # (1) sources intact
         for k in ("T1", "T2"):
             if snap(w.obj[k]) != w.src_snap[k]:
@@ -143,7 +144,7 @@ def run_history(res, hist):
                 res.violation("source-behaviour", "source schema %s validates differently after being added" % k, case)
                 return False
         # (2) every schema's rule list is the reference list
-        for k in ("S1", "S2"):
+        for k in TARGETS:
             want = [T.build_rule(r) for r in w.model[k]]
             got = w.obj[k].rules
             # compared as (path parts, condition, cast) triples: a re-rooted path is assembled from part
